@@ -489,11 +489,33 @@ pub fn opts_for(l: &Logical) -> DumpOpts {
 }
 
 /// Expected dump (subset that the model defines): indexes/entries/values and contents.
+/// position -> spec entry, for a store sorted on its `sort` columns (identity when unsorted)
+pub fn final_order(dir: &DirSpec) -> Vec<usize> {
+    let mut idx: Vec<usize> = (0..dir.entries.len()).collect();
+    if let Some(keys) = &dir.schema.sort {
+        idx.sort_by(|a, b| {
+            for k in keys {
+                let o = dir.entries[*a].vals[*k].cmp(&dir.entries[*b].vals[*k]);
+                if o != std::cmp::Ordering::Equal {
+                    return o;
+                }
+            }
+            std::cmp::Ordering::Equal
+        });
+    }
+    idx
+}
+
 pub fn model_dump(l: &Logical) -> J {
     let mut indexes = Map::new();
+    let order = final_order(&l.dir);
+    let mut pos = vec![0u64; order.len()];
+    for (p, k) in order.iter().enumerate() {
+        pos[*k] = p as u64;
+    }
     for ix in &l.dir.indexes {
         let entries: Vec<J> = (0..ix.count)
-            .map(|i| entry_json(&expected_entry(&l.dir, (ix.offset + i) as usize, &|k| k as u64)))
+            .map(|i| entry_json(&expected_entry(&l.dir, order[(ix.offset + i) as usize], &|k| pos[k])))
             .collect();
         indexes.insert(ix.name.clone(), json!({"offset": ix.offset, "count": ix.count, "entries": entries}));
     }
